@@ -98,15 +98,18 @@ CLASS_OF = {"SingleMemoryStorageSchedule": "SingleMemory", "SingleDiskStorageSch
             "NoneCheckpointSchedule": "NoneSchedule", "MultistageCheckpointSchedule": "Multistage",
             "MixedCheckpointSchedule": "Mixed", "TwoLevelCheckpointSchedule": "TwoLevel",
             "RevolveCheckpointSchedule": "Revolve", "HRevolve": "HRevolve", "DiskRevolve": "DiskRevolve",
-            "PeriodicDiskRevolve": "PeriodicDiskRevolve", "n_advance": "Multistage"}
+            "PeriodicDiskRevolve": "PeriodicDiskRevolve", "n_advance": "Multistage",
+            "_convert_action": "Revolve"}
+# the base-class iterator and _convert_action serve all four classes of the family
+REVOLVE_FAMILY = ("Revolve", "DiskRevolve", "PeriodicDiskRevolve", "HRevolve")
 
 
-def load_ledger():
+def load_ledger(key="obligations"):
     p = os.path.join(VERIF, "ledger.json")
     if not os.path.exists(p):
         return {}
     with open(p) as f:
-        return json.load(f).get("obligations", {})
+        return json.load(f).get(key, {})
 
 
 def native_replay(job):
@@ -176,9 +179,14 @@ def decide(prop, tier, seed, quiet=False, vc=None):
     if vacuous:
         lines.append("CHECKER-BROKEN: vacuous obligations: %s" % [o["name"] for o in vacuous][:5])
         worse(3)
+    # vacuity: a site the reference tree reaches (ledger: some path to it is not refuted there) and
+    # that is now proved unreachable although every obligation is discharged.  Sites that are
+    # dead code under the contracts on the reference tree as well (e.g. the planner never returns
+    # StepType.FORWARD) only get a cover when a path-pruning query times out under load: ignored.
+    reach_ref = set(load_ledger("reachable_sites") or [])
     dead = [k for k in vc.get("covers", {}).get("unreachable", [])
             if ("#yield" in k or "#return" in k or k.endswith("#end") or "back_edge" in k)
-            and "lemma" not in k]
+            and "lemma" not in k and k in reach_ref]
     if dead and not failed and not regressed:
         lines.append("CHECKER-BROKEN: sites proved unreachable although every obligation is discharged "
                      "(vacuous contracts?): %s" % dead[:5])
@@ -191,6 +199,8 @@ def decide(prop, tier, seed, quiet=False, vc=None):
     # ---- VC failures: named obligation, counterexample replayed on the real code
     rtc_by_class = {}
     for v in rtc.get("violations", []):
+        if v.get("assumption"):
+            continue
         cls = v["spec"][0] if v.get("spec") else None
         rtc_by_class.setdefault(cls, []).append(v)
     seen_names = set()
@@ -209,8 +219,10 @@ def decide(prop, tier, seed, quiet=False, vc=None):
         nat = native_replay(o.get("replay_job"))
         confirmed = bool(nat and nat.get("confirmed"))
         concrete = None
-        if not confirmed and cls in rtc_by_class:
-            concrete = rtc_by_class[cls][0]
+        family = REVOLVE_FAMILY if cls == "Revolve" else (cls,)
+        hit = [c for c in family if c in rtc_by_class]
+        if not confirmed and hit:
+            concrete = rtc_by_class[hit[0]][0]
             confirmed = True
         payload = {"property": prop, "kind": "vc", "obligation": o["name"], "clause": o.get("clause"),
                    "location": o.get("loc"), "function": o.get("function"),
@@ -237,9 +249,17 @@ def decide(prop, tier, seed, quiet=False, vc=None):
 
     # ---- bounded violations, grouped by clause and class
     groups = {}
+    assumption_failed = {}
     for v in rtc.get("violations", []):
         cls = v["spec"][0] if v.get("spec") else None
+        if v.get("assumption"):
+            assumption_failed.setdefault((v["clause"], cls), v)
+            continue
         groups.setdefault((v["clause"], cls), []).append(v)
+    for (clause, cls), v in sorted(assumption_failed.items(), key=str):
+        lines.append("UNDECIDED assumed contract %s does not hold on %s (%s): the proofs resting on it do "
+                     "not apply to this tree" % (clause, v.get("spec"), v.get("detail")))
+        worse(2)
     for (clause, cls), vs in sorted(groups.items(), key=lambda kv: str(kv[0])):
         unknown_vs = []
         for v in vs:
@@ -420,9 +440,17 @@ def main(argv):
             if o["status"] != "discharged":
                 e["status"] = o["status"]
         bad = {k: v for k, v in led.items() if v["status"] != "discharged"}
+        sites = full.get("covers", {}).get("status_by_site", {})
+        reach = sorted(k for k, v in sites.items() if v != "unsat")
         with open(os.path.join(VERIF, "ledger.json"), "w") as f:
             json.dump({"_comment": "committed; generated by `./check ledger` on the reference tree; "
-                                   "never written by a check", "obligations": led}, f, indent=0, sort_keys=True)
+                                   "never written by a check", "obligations": led,
+                       "reachable_sites": reach,
+                       "refuted_sites": sorted(k for k, v in sites.items() if v == "unsat")},
+                      f, indent=0, sort_keys=True)
+        print("cover sites: %d not refuted (%d proved reachable), refuted: %s" % (
+            len(reach), sum(1 for v in sites.values() if v == "sat"),
+            sorted(k for k, v in sites.items() if v == "unsat")))
         print("ledger: %d obligation names, %d VCs, not discharged: %s" % (
             len(led), sum(v["count"] for v in led.values()), list(bad)[:10]))
         return 0 if not bad else 2
